@@ -26,6 +26,39 @@ func groupShape(groups [][]majEntry) string {
 	return sb.String()
 }
 
+// configuredParams: what the request configures beside the criteria-related parameters (draw policy, current
+// choice, seed, ordering flag, level function and its coefficients) must be what the method is finally run with
+func configuredParams(g *genReq, s *dmpSnap) string {
+	mp, _ := g.M["methodParameters"].(M)
+	p := s.Params
+	if want := strOr(mp, "drawResolution", ""); g.method == "majorityHeuristic" && p.Draw != want {
+		return fmt.Sprintf("draw policy in force is '%s', the request configures '%s'", p.Draw, want)
+	}
+	if g.method == "majorityHeuristic" || g.method == "satisfactionHeuristic" {
+		if want := strOr(mp, "currentChoice", ""); p.CurrentChoice != want {
+			return fmt.Sprintf("current choice in force is '%s', the request configures '%s'", p.CurrentChoice, want)
+		}
+	}
+	if want := int64(numOr(mp, "randomSeed", 0)); p.Seed != want {
+		return fmt.Sprintf("random seed in force is %d, the request configures %d", p.Seed, want)
+	}
+	if want := boolOr(mp, "randomAlternativesOrdering", false); p.RandomOrder != want {
+		return fmt.Sprintf("randomAlternativesOrdering in force is %v, the request configures %v", p.RandomOrder, want)
+	}
+	if g.method != "majorityHeuristic" && p.Levels != nil {
+		if want := strOr(mp, "function", ""); p.Levels.Fn != want {
+			return fmt.Sprintf("level function in force is '%s', the request configures '%s'", p.Levels.Fn, want)
+		}
+		if p.Levels.Fn != "thresholds" {
+			lp := subM(mp, "params")
+			if p.Levels.Coefficient != numOr(lp, "coefficient", 0) || p.Levels.MinValue != numOr(lp, "minValue", 0) || p.Levels.MaxValue != numOr(lp, "maxValue", 0) {
+				return fmt.Sprintf("level parameters in force are (%v, %v, %v), the request configures %v", p.Levels.Coefficient, p.Levels.MinValue, p.Levels.MaxValue, lp)
+			}
+		}
+	}
+	return ""
+}
+
 func c11Check(c *caseCtx, g *genReq, d decision, tag string) {
 	c.count("evaluations", 1)
 	if !d.OK {
@@ -38,6 +71,10 @@ func c11Check(c *caseCtx, g *genReq, d decision, tag string) {
 		return
 	}
 	s := &ev.Before
+	if msg := configuredParams(g, s); msg != "" {
+		c.violate("configured-parameter-lost", msg, M{"request": g.M})
+		return
+	}
 	if !weightsCover(s) {
 		c.violate("params-incoherent", "a current criterion has no weight", M{"request": g.M})
 		return
@@ -150,6 +187,10 @@ func c11Sampled(c *caseCtx) {
 	if c.rng.Intn(2) == 0 {
 		o.profile = profTies
 	}
+	if c.rng.Intn(4) == 0 {
+		// weights 0.1 .. 0.5: score sums that are equal mathematically but not bit-for-bit (0.1+0.2 vs 0.3) are draws
+		o.decimalW, o.minCrit, o.maxCrit, o.profile = true, 3, 5, profTies
+	}
 	g := genRequest(c.rng, o)
 	c11Check(c, g, decide(g.body(), true), "")
 }
@@ -181,6 +222,10 @@ func c12Check(c *caseCtx, g *genReq, d decision) {
 		return
 	}
 	s := &ev.Before
+	if msg := configuredParams(g, s); msg != "" {
+		c.violate("configured-parameter-lost", msg, M{"request": g.M})
+		return
+	}
 	if !weightsCover(s) {
 		c.violate("params-incoherent", "a current criterion has no weight", M{"request": g.M})
 		return
@@ -298,6 +343,9 @@ func c12Sampled(c *caseCtx) {
 	} else {
 		o.fixedOrder = true
 	}
+	if c.rng.Intn(8) == 0 {
+		o.nearTiedW, o.distinctW, o.minCrit = true, false, 2 // distinct weights 1e-7 apart: still "heaviest first"
+	}
 	g := genRequest(c.rng, o)
 	c12Check(c, g, decide(g.body(), true))
 }
@@ -317,6 +365,10 @@ func c13Check(c *caseCtx, g *genReq, d decision) {
 		return
 	}
 	s := &ev.Before
+	if msg := configuredParams(g, s); msg != "" {
+		c.violate("configured-parameter-lost", msg, M{"request": g.M})
+		return
+	}
 	levels, ok := refLevels(s, false)
 	if !ok {
 		c.count("outside_domain", 1)
